@@ -446,8 +446,67 @@ def fixed_cases(tier):
     return out
 
 
+def gen_two_lens_case(rng):
+    """One problem whose variables belong to TWO lenses (a relay designed together with its objective); the second lens carries
+    a radius pickup.  Both lenses are singlets described by four numbers each."""
+    def singlet():
+        return dict(R1=round(float(rng.uniform(20, 80)), 4), t=round(float(rng.uniform(2, 6)), 4),
+                    n=round(float(rng.uniform(1.45, 1.8)), 5), bfl=round(float(rng.uniform(30, 90)), 3))
+    return dict(family='two-lens', A=singlet(), B=singlet(), fA=round(float(rng.uniform(0.85, 1.2)), 4),
+                fB=round(float(rng.uniform(0.85, 1.2)), 4), frontend=str(rng.choice(['least-squares', 'generic'])),
+                maxiter=int(rng.integers(5, 25)))
+
+
+def case_two_lens(case, rec):
+    from optiland.optic import Optic
+    from optiland.materials import IdealMaterial
+    from optiland.optimization import OptimizationProblem, OptimizerGeneric, LeastSquares
+
+    def make(p, pickup):
+        lens = Optic()
+        lens.add_surface(index=0, radius=np.inf, thickness=np.inf)
+        lens.add_surface(index=1, radius=p['R1'], thickness=p['t'], material=IdealMaterial(n=p['n']), is_stop=True)
+        lens.add_surface(index=2, radius=-p['R1'], thickness=p['bfl'])
+        lens.add_surface(index=3)
+        lens.set_aperture('EPD', 8.0)
+        lens.set_field_type('angle')
+        lens.add_field(y=0.0)
+        lens.add_wavelength(0.55, is_primary=True)
+        if pickup:
+            lens.pickups.add(1, 'radius', 2, scale=-1.0, offset=0.0)
+            lens.update()
+        return lens
+    A, B = make(case['A'], False), make(case['B'], True)
+    rec.cls('family-two-lens', f"frontend-{case['frontend']}")
+    prob = OptimizationProblem()
+    fA, fB = float(np.ravel(A.paraxial.f2())[0]), float(np.ravel(B.paraxial.f2())[0])
+    prob.add_operand(operand_type='f2', target=fA * case['fA'], weight=1, input_data={'optic': A})
+    prob.add_operand(operand_type='f2', target=fB * case['fB'], weight=1, input_data={'optic': B})
+    prob.add_variable(A, 'radius', surface_number=1)
+    prob.add_variable(B, 'radius', surface_number=1)
+    start = float(prob.sum_squared())
+    opt = LeastSquares(prob) if case['frontend'] == 'least-squares' else OptimizerGeneric(prob)
+    res = opt.optimize(maxiter=case['maxiter'], disp=False, tol=1e-9)
+    rec.event('optimiser_runs')
+    r1, r2 = float(B.surface_group.radii[1]), float(B.surface_group.radii[2])
+    rec.check('pickups-solves-satisfied', abs(r2 + r1) <= 1e-9 * max(1.0, abs(r1)), key='pickups-solves-satisfied:unexplained',
+              resid=abs(r2 + r1), tol=1e-9,
+              msg=f'two-lens problem: on return the second lens has R2 = {r2!r} for the pickup R2 = -R1 = {-r1!r}')
+    now = float(prob.sum_squared())
+    fun = float(np.ravel(res.fun)[0])      # (the least-squares front end hands scipy the scalar merit as its one residual)
+    rec.check('objective-reproduced', abs(now - fun) <= 1e-9 * max(1.0, abs(fun), abs(now)), key='objective-reproduced:unexplained',
+              resid=abs(now - fun), tol=1e-9,
+              msg=f'two-lens problem: merit on the lenses as left {now!r}, returned objective {fun!r}')
+    rec.check('not-worse-than-start', now <= start * (1 + 1e-9) + 1e-300, key='not-worse-than-start:unexplained',
+              resid=max(0.0, now - start), tol=1e-9,
+              msg=f'two-lens problem: merit {start!r} at the start, {now!r} on return')
+    rec.nontrivial_case()
+
+
 def gen_case(rng, tier, i):
     r = rng.random()
+    if r < 0.05:
+        return gen_two_lens_case(rng)
     if r < 0.25:
         return gen_merit_case(rng)
     if r < 0.45:
@@ -1075,4 +1134,6 @@ def check_case(case, rec):
             return
     if fam == 'vars':
         return case_vars(case, rec)
+    if fam == 'two-lens':
+        return case_two_lens(case, rec)
     return case_opt(case, rec)
